@@ -408,11 +408,97 @@ def eval_conds_take(f, conds, env):
     return True
 
 
+def to_simple_expr_by_interp(run, f, cfg, name, fn):
+    """to_simple_expr interpreted on groups of 0..3 members (expressions and nested groups, both polarities): the result is
+    the left-to-right fold of the members with OR / AND, the neutral constant for an empty group, wrapped in NOT exactly when
+    negate is set.  True when decided"""
+    from ..interp import Interp, Opaque, Unsupported, Diverged
+    CT = "crate::query::condition::ConditionType"
+    CE_ = "crate::query::condition::ConditionExpression"
+    bad, rows = [], 0
+
+    def run_one(cond):
+        it = Interp(f)
+        it.free_opaque = True
+        it.opaque_conversions = True
+        it.max_depth = 12
+        it.opaque_call = lambda e: (e.get("name") in ("or", "and", "not") and (e.get("callee") or "").startswith("crate::expr::"))
+
+        def oper(it_, e, env, depth):
+            nm = e.get("name")
+            if nm in ("or", "and", "not") and e.get("k") == "mcall":
+                vals = [it_.ev(e["recv"], env, depth)] + [it_.ev(a, env, depth) for a in e.get("args") or []]
+                return (nm,) + tuple(vals)
+            raise Unsupported("call %s" % (e.get("callee") or nm))
+        it.unknown_call = oper
+        return it.call_fn(name, [cond])
+
+    def norm(v):
+        if isinstance(v, Opaque):
+            return v.tag
+        if isinstance(v, tuple) and v and v[0] in ("or", "and", "not"):
+            return (v[0],) + tuple(norm(x) for x in v[1:])
+        if isinstance(v, bool):
+            return v
+        if isinstance(v, Var):
+            if len(v.fields) == 1:
+                return norm(v.fields[0])
+            return (v.d.rsplit("::", 1)[-1],) + tuple(norm(x) for x in v.fields)
+        if isinstance(v, tuple) and len(v) == 2 and v[0] == "__some":
+            return norm(v[1])
+        return v
+
+    def expected(cond):
+        op = "or" if cond["condition_type"].d.endswith("Any") else "and"
+        ms = []
+        for m in cond["conditions"]:
+            ms.append(expected(m.fields[0]) if m.d.endswith("::Condition") else m.fields[0].tag)
+        if not ms:
+            r = (op == "and")
+        else:
+            r = ms[0]
+            for x in ms[1:]:
+                r = (op, r, x)
+        return ("not", r) if cond["negate"] else r
+
+    def group(kind, neg, members):
+        return {"negate": neg, "condition_type": Var(CT + "::" + kind), "conditions": members}
+    try:
+        leaf = lambda t: Var(CE_ + "::SimpleExpr", [Opaque(t)])
+        for kind in ("Any", "All"):
+            for neg in (False, True):
+                for n in (0, 1, 2, 3):
+                    shapes = [[leaf("m%d" % i) for i in range(n)]]
+                    if n >= 1:
+                        inner = group("All" if kind == "Any" else "Any", True, [leaf("i0"), leaf("i1")])
+                        shapes.append([leaf("m%d" % i) for i in range(n - 1)] + [Var(CE_ + "::Condition", [inner])])
+                        shapes.append([Var(CE_ + "::Condition", [group(kind, False, [])])] + [leaf("m%d" % i) for i in range(1, n)])
+                    for members in shapes:
+                        c = group(kind, neg, members)
+                        rows += 1
+                        got = norm(run_one(c))
+                        want = expected(c)
+                        if got != want:
+                            bad.append("%s%s%s -> %r, expected %r" % ("NOT " if neg else "", kind, [getattr(m.fields[0], "tag", "group") for m in members], got, want))
+    except (Unsupported, Diverged) as e:
+        run.notes.append("C06.R3 to_simple_expr outside the interpreter's fragment (%s): decided by its shape" % e)
+        return False
+    run.ob("C06.R3", "to_simple_expr:table", not bad,
+           "Condition::to_simple_expr interpreted on %d groups (Any / All x negate x 0..3 members incl. nested and empty groups): the members "
+           "folded left to right with OR / AND, TRUE / FALSE for an empty group, NOT around the whole exactly when negated%s" % (rows, "" if not bad else " - NOT: " + "; ".join(bad[:3])),
+           sp=fn["sp"], cfg=cfg)
+    from .. import scope
+    scope.check_bound(run, "C06.R3", "to_simple_expr:scope", f, [name], 3, cfg, "to_simple_expr (groups of 0..3 members)")
+    return True
+
+
 def check_to_simple_expr(run, f, cfg):
     name = COND + "::to_simple_expr"
     fn = f.fns.get(name)
     if fn is None:
         run.anchor("C06.R3", "to_simple_expr", "not found", cfg)
+        return
+    if to_simple_expr_by_interp(run, f, cfg, name, fn):
         return
     body = nhir(f, name)
     fold = {}
